@@ -560,6 +560,18 @@ impl MonDir {
             fired: 0,
         });
     }
+    /// legal but hostile: matching writes accept only a short count (never an error)
+    pub fn add_short_writes(&self, pred: OpPred, nth: u64, mode: FaultMode) {
+        self.lock().faults.push(FaultRule {
+            pred,
+            nth,
+            mode,
+            err: io::ErrorKind::Other,
+            short_write: true,
+            seen: 0,
+            fired: 0,
+        });
+    }
     pub fn clear_faults(&self) {
         let mut st = self.lock();
         st.faults.clear();
